@@ -5,7 +5,7 @@ Require Import Mixin.Base.Res.
 (* exported: the case terms name the model's constructors (MkSnap) *)
 Require Export Mixin.Model.SnapCodec.
 Import ListNotations.
-Open Scope N_scope.
+Local Open Scope N_scope. (* Local: the driver reads mismatch indices printed as n%N *)
 
 Inductive case :=
 (* common.UnmarshalVersionedSnapshot(b): decoded fields and topological order *)
